@@ -181,6 +181,9 @@ def make_scene(eng, cname, role, rootkind=None, second=False):
     from contracts.core import allowed
     for n in nodes:
         st.assume(allowed(eng, st.rec(n).cls, st.sel("View", z3.IntVal(n.addr))))
+        # Inv.node: the plain view of a dict-like (list-like) node is a dict (list)
+        kd = kind_of_class(eng, st.rec(n).cls)
+        st.assume(smt.tyof(st.sel("View", z3.IntVal(n.addr))) == z3.IntVal(smt.tid_of(kd)))
     if backend_base(rootcls) == "JSONCollection":
         # the abstract resource content of a JSON file is the decoded content of its bytes
         from .stdlib_spec import json_loads
@@ -239,7 +242,7 @@ def setup_buffer_statics(eng, st, sc, rootcls, aux=False):
     from .values import ClassV
     ctx = st.new_obj(P.classes["_FileBufferedContext"],
                      {"_count": Iv(bctx0), "_func": BoundV(ClassV(rootcls), fb), "_buffer_capacity": Const(None),
-                      "_cls": ClassV(rootcls), "_original_buffer_capacitys": Z(smt.fresh("capstack"), "pylist")},
+                      "_cls": ClassV(rootcls), "_original_buffer_capacitys": Z(VRef(smt.fresh("capstack_addr", IntS)), "list", {})},
                      tag="bufctx:" + c)
     st.statics[(c, "_buffer_context")] = ctx
     # _buffer: filename -> entry dict ; _buffered_collections: id -> collection.  Both are built-in dict cells.
